@@ -7,9 +7,10 @@
    alone (C05_cw_full: the whole clause); defining computations of Copeland, Schulze (the table of
    strongest beat-paths, ranking independent of the iteration order), Kemeny-Young (common first
    places of the best permutations) and ranked pairs (locked total order); nobody dropped for
-   minimax, Schulze, ranked pairs, Kemeny-Young.  The remaining clauses (Smith-efficiency of
-   ranked pairs / Kemeny / Schulze, nobody dropped for Copeland second order, the run-off hybrids)
-   are decided per case by the verified-model correspondence plus brute-force references in the check
+   Copeland (raw and second order), minimax, Schulze, ranked pairs, Kemeny-Young (C05_nobody_dropped_full: the whole
+   clause); Smith efficiency of Copeland (raw and second order), Schulze (by the number of path-wins), ranked pairs
+   (three scorers) and Kemeny-Young, also for a reported tie (Proofs/SmithEff_proofs.v).  The run-off hybrids
+   (Benham, Tideman alternative) have no Coq model and are decided per case on the implementation by the check
    (C05 evidence: "partial"). *)
 From Coq Require Import ZArith List Arith.
 From VL Require Import Prelude.PyDict Model.GetNBest Model.Condorcet Proofs.Condorcet_proofs Proofs.CopelandMono_proofs Proofs.SmithCopeland_proofs Proofs.Minimax_proofs Proofs.Schulze_proofs.
@@ -318,6 +319,20 @@ Proof.
   apply in_flat_map. exists (Cand x). split; [|left; reflexivity]. exact (copeland_nobody_dropped v true x Hnd Hnn Hx).
 Qed.
 
+(* the same for a REPORTED TIE for the seat: whatever stands in the first place of the one-seat answer - the plain winner or
+   every member of the tie object - lies in the Smith set; Copeland with and without second-order tie-breaking (the
+   second-order scores are kept for the first-order leaders only), Schulze for every iteration order.  Ranked pairs and
+   Kemeny-Young never answer with a tie object, so C05_smith_ranked_pairs / C05_smith_kemeny already cover every answer. *)
+Theorem C05_smith_copeland_first : forall (v : pvotes) (so : bool),
+  NoDup (map fst v) -> (forall p n, In (p, n) v -> 0 <= n) -> (2 <= length (candidates v))%nat ->
+  incl (first_place (copeland so v 1)) (smith_schwartz v true).
+Proof. intros v so Hnd Hnn H2. exact (copeland_first_in_smith v Hnd Hnn H2 so). Qed.
+
+Theorem C05_smith_schulze_first : forall (v : pvotes) (order : list C),
+  NoDup (map fst v) -> (forall p n, In (p, n) v -> 0 <= n) -> (2 <= length (candidates v))%nat ->
+  incl (first_place (schulze v order 1)) (smith_schwartz v true).
+Proof. intros v order Hnd Hnn H2. exact (schulze_first_in_smith v Hnd Hnn H2 order). Qed.
+
 (* non-vacuity: five candidates, a three-candidate top cycle 1 > 2 > 3 > 1 over 4 and 5, no Condorcet winner; the Smith set is
    {1, 2, 3} and each method elects one of its members *)
 Definition C05_smith_example : pvotes := mk_pv
@@ -332,6 +347,7 @@ Example C05_smith_example_runs :
   ranked_pairs Margins C05_smith_example 1 = CR_ok [Cand 1%positive] /\
   ranked_pairs PairwiseOpposition C05_smith_example 1 = CR_ok [Cand 1%positive] /\
   kemeny C05_smith_example 1 = CR_ok [Cand 1%positive] /\
+  copeland true C05_smith_example 1 = [TieR [1%positive; 2%positive; 3%positive]] /\
   copeland true C05_smith_example 5 = [Cand 1%positive; Cand 2%positive; Cand 3%positive; Cand 4%positive; Cand 5%positive].
 Proof.
   split; [split; [apply nodup_keys_b_sound; vm_compute; reflexivity|split; [apply nonneg_b_sound; vm_compute; reflexivity|vm_compute; lia]]|].
@@ -371,3 +387,5 @@ Print Assumptions C05_smith_kemeny.
 Print Assumptions C05_smith_kemeny_order.
 Print Assumptions C05_copeland2_nobody_dropped.
 Print Assumptions C05_nobody_dropped_full.
+Print Assumptions C05_smith_copeland_first.
+Print Assumptions C05_smith_schulze_first.
